@@ -236,6 +236,17 @@ def rule_bc(ctx, cr):
               "the GO SUB spelling is no longer merged into GOSUB")
 
 
+    # the second word must be a reserved word of the scanner, or it is not split from what
+    # follows it: TO is (GO TO100 works), SUB is not (GO SUB100 lexes SUB100 as one identifier)
+    ctx.check("Gosub" in got and got["Gosub"][1] is not None and got["Gosub"][1][0] == "Word",
+              "C16.c", "GO-SUB/second-word-reserved", f.span,
+              "GO SUB is recognised by a reserved word, so `GO SUB100` splits like `GO TO100`",
+              "collapse_triples recognises GO SUB by comparing an identifier with \"SUB\": SUB is "
+              "not a reserved word, so in `GO SUB100` (no blank before the number) the scanner "
+              "reads the identifier SUB100 and the line is an UNKNOWN STATEMENT, while "
+              "`GO SUB 100`, `GOSUB100` and `GO TO100` all work")
+
+
 def rule_d(ctx, cr):
     mn = lt.minutia(cr)
     ctx.check(mn.get("?") == ("Word", ("Word", "Print")), "C16.d", "alias/?", "", "? is PRINT")
@@ -245,6 +256,25 @@ def rule_d(ctx, cr):
            if v and v.get("k") == "const" and v["const"].get("bool") is True]
     ctx.check(len(rem) >= 2, "C16.d", "remark/both-markers", nx.span,
               "both REM and ' switch the lexer to remark mode (%d stores)" % len(rem))
+    # every way a word token leaves next() is checked for the remark word: the direct result of
+    # alphabetic()/minutia() AND a word queued in `pending` by an earlier run (THENREM ...)
+    ctx.touch(nx)
+    srcs = [c for c in nx.calls()
+            if c.name in ("lang::lex::BasicLexer::alphabetic", "lang::lex::BasicLexer::minutia")
+            or (c.name.endswith("VecDeque::<T, A>::pop_front")
+                and nx.describe(c.args[0]).endswith(".pending"))]
+    stores = [b for b, st, v in nx.field_stores("remark")
+              if v and v.get("k") == "const" and v["const"].get("bool") is True]
+    ctx.floor("C16.d", "token sources of next() that can yield a word", len(srcs), 3)
+    for c in srcs:
+        own = [b for b in stores if nx.dominates(c.bb, b) and not any(
+            c2 is not c and nx.dominates(c.bb, c2.bb) and nx.dominates(c2.bb, b) for c2 in srcs)]
+        nm = c.name.rsplit("::", 1)[1]
+        ctx.check(bool(own), "C16.d", "remark/checked-after/%s" % nm, c.span,
+                  "a remark word coming out of %s switches to remark mode" % nm,
+                  "a token taken from %s is returned without testing it for the remark word: in "
+                  "`IF A THENREM it's \"ok` the REM is queued behind THEN, remark mode is never "
+                  "entered and the remark text is tokenised (listed as `REM IT 's \"ok`)" % nm)
     se = cr.need_fn("lang::ast::Statement::expect")
     ctx.touch(se)
     lets = se.calls_to("lang::ast::Statement::let")
